@@ -17,7 +17,7 @@ def tasks(run):
         out.append(('backends', (name, seed, None, True)))
         if i % 11 == 5:
             out.append(('backends', (name, seed, 'logdet2', False)))
-    out += [('backends', ('T_user_lmi', v, None, False)) for v in range(8)]       # every declaration order of LMIs and scalar constraints (row index != running count)
+    out += [('backends', ('T_user_lmi', v, None, False)) for v in range(16)]       # every declaration order of LMIs and scalar constraints (row index != running count)
     out += [('mosek_many_rows', (11,)), ('mosek_no_value', (run.seed,)), ('mosek_no_value', (run.seed + 1,))]
     return out
 
@@ -29,6 +29,8 @@ def sig(kind, args, info, f):
 def run(run):
     # deductive part: the rows / objective the MOSEK wrapper emits, stated against ASSUMED contracts of the MOSEK Optimizer API (contracts/mosek.py),
     # denote the same affine functions as the dense (cvxpy) encoding: same `sparse_facts` / coefficient statements as C05
+    from pyvc import leancheck
+    leancheck.check(run, 'Rows.lean', 'the row-major index spec function ridx has the closed form i*n + j, injective on cells')
     runner.load_contracts()
     components.ast_functions(run, FUNCS, run.tier, rt_quick=25, rt_thorough=150)
     run.assume('MOSEK Optimizer API (getnumcon, getmaxnumvar, appendcons, appendvars, appendbarvars, appendsparsesymmat, putbaraij, putaijlist, putconbound, '
